@@ -58,8 +58,15 @@ def judge(case, tr):
         return ("hang", tr.hang or "still running long after the EOF time; events %s" % names[-8:]), labels
     if tr.escaped:
         return ("escaped_exception", tr.escaped), labels
+    if "protocol_error" in names:
+        # all scripted frames are valid: a ProtocolError is some other property's violation, and it ends the
+        # connection for reasons no timer is responsible for
+        labels.add("inconclusive:protocol_error_for_valid_frames")
+        return None, labels
     if "ready" not in names or names[-1] != "disconnected":
-        return ("harness", "unexpected shape %s" % names), labels
+        # never Ready / not ended by Disconnected: no timing statement applies (C07, C09, C10 judge such runs)
+        labels.add("inconclusive:not_ready_or_no_disconnected")
+        return None, labels
     t0 = [e["t"] for e in tr.events if e["name"] == "ready"][0]
     rel = lambda x: x - t0   # noqa
     E = rel(tr.events[-1]["t"])
